@@ -254,7 +254,10 @@ class PropertyRun:
                         clause = s
                 ref = clause or uline
                 repo_line = self.repo_line_of(u, uline)
-                ob = '%s/%s/%s@%s:%d' % (self.pid, u.label, kind, u.file, repo_line)
+                import hashlib
+                ctext = re.sub(r'\s+', ' ', (ref['text'] or '')).strip().rstrip(',')
+                chash = hashlib.sha1(ctext.encode()).hexdigest()[:6]
+                ob = '%s/%s/%s#%s@%s:%d' % (self.pid, u.label, kind, chash, u.file, repo_line)
                 self.violations.append(dict(obligation=ob, unit=u.label, kind=kind, message=e['message'],
                                             clause_text=ref['text'], gen_file=grp['path'], gen_line=uline['line'],
                                             clause_gen_line=ref['line'],
